@@ -112,7 +112,7 @@ class C41(Prop):
     technique = ("Coq proof (induction on the dimension over Q, column-major index lemma, "
                  "invariant of the lazily filled store) + vm_compute execution correspondence")
     rule = ("random dimension 1-4, resolutions 2-5 per axis, dyadic boxes (85% with dyadic "
-            "mesh size) times one exact power-of-two scale 2^-12..2^12 (function scaled "
+            "mesh size) times one exact power-of-two scale 2^-6..2^12 (function scaled "
             "inversely), boxes up to 2^8 cells away from the origin or anchored at the origin "
             "(adaptive table then built with the default base point), scalar and vector-valued "
             "(dim 2-3) multilinear coefficient tables with integer coefficients in [-5,5] "
@@ -128,7 +128,7 @@ class C41(Prop):
                "exact; outputs compared with |impl-model| <= 1e-9(1+|model|) inside Coq",
                "numpy floor division // on floats = floor of the exact quotient (dyadic data)"]
     assumptions = ["low < high and npt >= 2 on every axis (h=0 / a one-point axis divides by zero "
-                   "in the code)", "mesh sizes between 2^-15 and 2^15 (well above the absolute 1e-10 "
+                   "in the code)", "mesh sizes between 2^-9 and 2^15 (well above the absolute 1e-10 "
                    "coordinate tolerance of the adaptive table)"]
 
     # ---------------------------------------------------------------- generation
@@ -141,7 +141,7 @@ class C41(Prop):
         # one exact power-of-two scale for the whole box (the function is scaled inversely, see
         # generate) and boxes away from the origin (offset up to 2^8 cells in dimension <= 2):
         # keeps the float evaluation well conditioned
-        scale = Fr(2) ** rng.choice([0, 0, 0, -12, -6, 6, 12])
+        scale = Fr(2) ** rng.choice([0, 0, 0, -6, -3, 6, 12])
         for i in range(d):
             lo = Fr(rng.randint(-16, 16), rng.choice([1, 2, 4]))
             if d <= 2 and rng.random() < 0.2:
